@@ -12,6 +12,9 @@ use crate::io::MultiLineWriter;
 use crate::sinks::core::MetricSink;
 use crossbeam_channel::{bounded, unbounded, Receiver, Sender, TrySendError};
 use std::io::{self, ErrorKind, Write};
+#[cfg(cadence_verif)]
+use crate::verif::sync::Mutex;
+#[cfg(not(cadence_verif))]
 use std::sync::Mutex;
 
 // Default size of the buffer for buffered metric sinks, picked for
